@@ -204,6 +204,20 @@ func runC15Representations(c *Ctx) {
 				c.Law(false, "C15/element-system", "element -> System value succeeds", in, err.Error())
 				continue
 			}
+			if js, ok := jsonOf("deceasedDateTime", e); ok {
+				// the System value denotes what the element denotes: its text is the element's JSON text
+				// (a partial dateTime is written with a trailing T)
+				// same offset spelt Z or +00:00; a System value has no microsecond precision of its own:
+				// six fraction digits ending in 000 are the millisecond value
+				zulu := func(x string) string {
+					x = strings.TrimSuffix(strings.TrimSuffix(x, "+00:00"), "Z")
+					if i := strings.IndexByte(x, '.'); i >= 0 && len(x) >= i+7 && x[i+4:i+7] == "000" && (len(x) == i+7 || x[i+7] == '+' || x[i+7] == '-') {
+						x = x[:i+4] + x[i+7:]
+					}
+					return x
+				}
+				c.Law(zulu(strings.TrimSuffix(sv.String(), "T")) == zulu(js), "C15/element-system-value", "element -> System value keeps the value, the precision and the offset (same text as the element's JSON rendering)", in, sv.String()+" vs JSON "+js)
+			}
 			again, err2 := system.DateTimeFromProto(sv.ToProtoDateTime())
 			c.Law(err2 == nil && same(sv, again), "C15/system-element-system", "System -> element -> System preserves value, precision and offset", in, observeTemporal(sv)+" vs "+observeTemporal(again))
 			// the System value's canonical string re-parses to an equal value
@@ -226,6 +240,9 @@ func runC15Representations(c *Ctx) {
 			if err != nil {
 				c.Law(false, "C15/element-system", "element -> System value succeeds", in, err.Error())
 				continue
+			}
+			if js, ok := jsonOf("birthDate", e); ok {
+				c.Law(sv.String() == js, "C15/element-system-value", "element -> System value keeps the value and the precision (same text as the element's JSON rendering)", in, sv.String()+" vs JSON "+js)
 			}
 			again, err2 := system.DateFromProto(sv.ToProtoDate())
 			c.Law(err2 == nil && same(sv, again), "C15/system-element-system", "System -> element -> System preserves value, precision and offset", in, observeTemporal(sv)+" vs "+observeTemporal(again))
